@@ -75,3 +75,36 @@ Fixpoint jsize (j : json) : nat :=
 (* building strings with arbitrary bytes (used by generated case files) *)
 Fixpoint str_of_bytes (l : list nat) : string :=
   match l with [] => EmptyString | n :: l => String (ascii_of_nat n) (str_of_bytes l) end.
+
+(* structural equality (used to tie the witnesses of the `_refuted` theorems to the documents the
+   harness replays on the real front end) *)
+Definition jfloat_eqb (a b : jfloat) : bool :=
+  match a, b with
+  | FFin n d, FFin n' d' => Z.eqb n n' && Pos.eqb d d'
+  | FPInf, FPInf | FNInf, FNInf | FNaN, FNaN => true
+  | _, _ => false
+  end.
+Fixpoint json_eqb (a b : json) : bool :=
+  match a, b with
+  | JNull, JNull => true
+  | JBool x, JBool y => Bool.eqb x y
+  | JInt x, JInt y => Z.eqb x y
+  | JFloat x, JFloat y => jfloat_eqb x y
+  | JStr x, JStr y => String.eqb x y
+  | JOther x, JOther y => String.eqb x y
+  | JArr l1, JArr l2 =>
+      (fix go (l1 l2 : list json) : bool :=
+         match l1, l2 with
+         | [], [] => true
+         | x :: l1, y :: l2 => json_eqb x y && go l1 l2
+         | _, _ => false
+         end) l1 l2
+  | JObj m1, JObj m2 =>
+      (fix go (m1 m2 : list (string * json)) : bool :=
+         match m1, m2 with
+         | [], [] => true
+         | kx :: m1, ky :: m2 => String.eqb (fst kx) (fst ky) && json_eqb (snd kx) (snd ky) && go m1 m2
+         | _, _ => false
+         end) m1 m2
+  | _, _ => false
+  end.
